@@ -14,7 +14,7 @@ from vf import fluent_ref as fr
 PROP = "C13"
 SHAPES = [(2,), (3,), (4,), (5,), (2, 2), (2, 3), (2, 2, 2)]
 ISHAPES = [(2,), (2, 3)]
-ORDER_OPS = set(fr.NPRED) | {"stack", "flatten", "concatenate", "expand", "expand_coord", "transform", "reduce_first", "map", "isel", "sel"} | set(fr.NPBIN)
+ORDER_OPS = set(fr.NPRED) | {"reduce_default_dim", "flatten_default_dim", "sel_kw", "isel_slice", "map_array", "stack", "flatten", "concatenate", "expand", "expand_coord", "transform", "reduce_first", "map", "isel", "sel"} | set(fr.NPBIN)
 
 
 def ops_for(r: fr.RefAction, full: bool, step: int):
@@ -22,6 +22,15 @@ def ops_for(r: fr.RefAction, full: bool, step: int):
     nd = len(ish)
     out = [["map"]]
     nodims = len(r.dims)
+    if nodims >= 1:
+        if r.sizes[r.dims[0]] >= 2:
+            for red in (list(fr.NPRED) if full else ["sum", "std"]):
+                for bs in ([0, 2] if full else [2]):
+                    out.append(["reduce_default_dim", red, bs])
+            out.append(["flatten_default_dim"])
+        out.append(["map_array"])
+        if "m" not in r.dims and all(r.labels[d] is not None for d in r.dims):
+            out.append(["join_match", list(ish)])
     for di, dim in enumerate(r.dims):
         n = r.sizes[dim]
         if n >= 2:
@@ -45,7 +54,14 @@ def ops_for(r: fr.RefAction, full: bool, step: int):
                         out.append(["concatenate", dim, axis, bs, True])
         for idx in ([0, n - 1, [0], [n - 1, 0]] if full else [n - 1, [n - 1, 0]]):
             out.append(["isel", dim, idx])
+        if n >= 2:
+            out.append(["isel_slice", dim, 0, n - 1])
+            if full:
+                out.append(["isel_slice", dim, 1, n])
         if r.labels[dim] is not None:
+            out.append(["sel_kw", dim, r.labels[dim][0], False])
+            if full:
+                out.append(["sel_kw", dim, r.labels[dim][-1], True])
             labs = r.labels[dim]
             for lab in ([labs[0], [labs[-1]], list(labs[::-1])] if full else [labs[-1], list(labs[::-1])]):
                 out.append(["sel", dim, lab])
@@ -104,11 +120,13 @@ def programs(ctx):
                     if ops and ops[-1][0] == "power" and isinstance(ops[-1][1], str):
                         continue  # x ** y with array exponents leaves the exactly-representable value alphabet: a leaf
                     for op in ops_for(r, full, step):
-                        if step >= 2 and op[0] in ("isel", "sel", "transform", "expand", "expand_coord"):
+                        if step >= 2 and op[0] in ("isel", "sel", "sel_kw", "isel_slice", "transform", "expand", "expand_coord", "map_array", "join_match"):
                             continue
                         if op[0] in ("expand", "expand_coord", "transform", "broadcast") and any(o[0] in ((op[0],) if op[0] not in ("expand", "expand_coord") else ("expand", "expand_coord")) for o in ops):
                             continue  # the new dimension's name must be fresh (a squeezed earlier one leaves a scalar coordinate behind)
                         if op[0] == "join" and op[2] == "j" and any(o[0] == "join" and o[2] == "j" for o in ops):
+                            continue
+                        if op[0] == "join_match" and any(o[0] == "join_match" for o in ops):
                             continue
                         try:
                             r2 = fr.apply_ref(r, op, None)
